@@ -179,6 +179,56 @@ def families(env):
             obs.append(mgr.BVULT(mgr.BVNot(t), vl[4]))
         return mgr.And(obs)
     F["bv-ite-observed"] = bv_ite_observed
+    # integer division towers (printed as div)
+    F["int-div"] = term_fam(il, lambda a, b: mgr.Div(a, b), lambda t, i: mgr.Div(t, mgr.Int(3)),
+                            lambda t: mgr.LE(mgr.Div(t, il[1]), il[2]))
+    # a construction that is rejected at every level (try Equals, fall back to Iff): errors must not cost a re-check
+    # of what has been built
+    def with_rejections(n, pattern):
+        def op2(a, b):
+            try:
+                mgr.Equals(a, b)
+            except Exception:
+                pass
+            return mgr.Iff(mgr.Not(a), b)
+        return grow(bl, n, pattern, op2, lambda t, i: mgr.Implies(t, bl[i % 5]))
+    F["with-rejected-constructions"] = with_rejections
+    # every operator with two or more term arguments, nested directly in itself: t' = op(t, op(t, leaf)).
+    # (an operator whose printed form is not named by a let makes the text follow the tree; these are measured on the
+    #  operations that do not rewrite -- simplify flattens / folds several of them by design)
+    v1 = leaves(env, tm.BVType(1))
+    DIRECT = {
+        "and": (bl, lambda a, b: mgr.And(a, b)), "or": (bl, lambda a, b: mgr.Or(a, b)),
+        "implies": (bl, lambda a, b: mgr.Implies(a, b)), "iff": (bl, lambda a, b: mgr.Iff(a, b)),
+        "ite-bool": (bl, lambda a, b: mgr.Ite(bl[4], a, b)),
+        "int-plus": (il, lambda a, b: mgr.Plus(a, b)), "int-minus": (il, lambda a, b: mgr.Minus(a, b)),
+        "int-times": (il, lambda a, b: mgr.Times(a, b)), "int-ite": (il, lambda a, b: mgr.Ite(bl[4], a, b)),
+        "real-plus": (rl, lambda a, b: mgr.Plus(a, b)), "real-minus": (rl, lambda a, b: mgr.Minus(a, b)),
+        "real-times": (rl, lambda a, b: mgr.Times(a, b)), "real-div": (rl, lambda a, b: mgr.Div(a, b)),
+        "real-ite": (rl, lambda a, b: mgr.Ite(bl[4], a, b)),
+        "bv-and": (vl, lambda a, b: mgr.BVAnd(a, b)), "bv-or": (vl, lambda a, b: mgr.BVOr(a, b)),
+        "bv-xor": (vl, lambda a, b: mgr.BVXor(a, b)), "bv-sub": (vl, lambda a, b: mgr.BVSub(a, b)),
+        "bv-mul": (vl, lambda a, b: mgr.BVMul(a, b)), "bv-udiv": (vl, lambda a, b: mgr.BVUDiv(a, b)),
+        "bv-urem": (vl, lambda a, b: mgr.BVURem(a, b)), "bv-lshl": (vl, lambda a, b: mgr.BVLShl(a, b)),
+        "bv-lshr": (vl, lambda a, b: mgr.BVLShr(a, b)), "bv-ashr": (vl, lambda a, b: mgr.BVAShr(a, b)),
+        "bv-sdiv": (vl, lambda a, b: mgr.BVSDiv(a, b)), "bv-srem": (vl, lambda a, b: mgr.BVSRem(a, b)),
+        "bv-comp": (v1, lambda a, b: mgr.BVComp(a, b)),
+        "bv-concat-extract": (vl, lambda a, b: mgr.BVExtract(mgr.BVConcat(a, b), 4, 11)),
+        "store": (al, lambda a, b: mgr.Store(a, one, mgr.Select(b, one))),
+        "store-index": (al, lambda a, b: mgr.Store(a, mgr.Select(b, one), one)),
+        "str-concat": (sl, lambda a, b: mgr.StrConcat(a, b)),
+        "str-indexof": (il, lambda a, b: mgr.StrIndexOf(mgr.IntToStr(a), mgr.IntToStr(b), one)),
+        "str-charat": (sl, lambda a, b: mgr.StrCharAt(a, mgr.StrToInt(b))),
+        "str-substr": (sl, lambda a, b: mgr.StrSubstr(a, mgr.StrLength(b), one)),
+    }
+    def direct(ls, op):
+        def build(n, pattern):
+            t = grow(ls, n, pattern, op, lambda t, i: op(t, ls[i % len(ls)]))
+            ty = t.get_type()
+            return t if ty.is_bool_type() else mgr.Equals(t, ls[1])
+        return build
+    for k_, (ls_, op_) in DIRECT.items():
+        F["direct:" + k_] = direct(ls_, op_)
     # mixed Int/Real with casts and constants on the way (x + 0, x * 1 are folded by the simplifier)
     #  - an ITE between two levels, so that the folded result never nests Plus directly in Plus)
     F["toreal-consts"] = term_fam(il, lambda a, b: mgr.Ite(bl[0], mgr.Times(a, one), mgr.Minus(b, mgr.Int(0))),
@@ -267,8 +317,14 @@ FAMILY_SKIP = {"and-direct": {"simplify", "propagate-toplevel"}, "or-direct": {"
                "bv-ite-observed": set()}
 
 
+NON_REWRITING = {"substitute", "free_vars", "atoms", "is_qf", "get_types", "get_logic", "size-depth", "dag-print",
+                 "print-parse", "script-reserialize", "get_type"}
+
+
 def check_family(run, fam, pattern, n, ops_subset=None):
     """Sharing families: abort budget and doubling test."""
+    if fam.startswith("direct:"):
+        ops_subset = NON_REWRITING
     results = {}
     for size in (n, 2 * n):
         env = Environment()
@@ -310,6 +366,13 @@ def check_family(run, fam, pattern, n, ops_subset=None):
                              "%s on %s/%s with %d levels hits the recursion limit" % (name, fam, pattern, size))
                     results[(name, size)] = None
                     continue
+                except MemoryError:
+                    # few Python calls, but values (texts) whose size follows the tree
+                    run.fail({"subcheck": "work:output-size", "operation": name, "family": fam, "pattern": pattern},
+                             {"family": fam, "pattern": pattern, "n": size, "operation": name},
+                             "%s on %s/%s (%d distinct nodes) exhausts %d GB of memory" % (name, fam, pattern, nodes, MEMORY_GB))
+                    results[(name, size)] = None
+                    continue
                 except Exception as e:
                     run.discard("operation-raised:%s:%s" % (name, type(e).__name__))
                     results[(name, size)] = None
@@ -337,6 +400,8 @@ def check_family(run, fam, pattern, n, ops_subset=None):
 
 def check_deep(run, fam, depth, ops_subset=None):
     """Chains of depth >= 20000 under the default recursion limit."""
+    if fam.startswith("direct:"):
+        ops_subset = NON_REWRITING
     assert sys.getrecursionlimit() <= 1000
     env = Environment()
     with env:
@@ -362,7 +427,12 @@ def check_deep(run, fam, depth, ops_subset=None):
                 run.discard("deep-operation-raised:%s:%s" % (name, type(e).__name__))
 
 
+MEMORY_GB = 3
+
+
 def job(items):
+    import resource
+    resource.setrlimit(resource.RLIMIT_AS, (MEMORY_GB << 30, MEMORY_GB << 30))
     run = Run(PID)
     for it in items:
         if it[0] == "share":
@@ -375,7 +445,7 @@ def job(items):
 FAMS = ["and", "or", "implies", "iff", "not-and", "ite-bool-cond", "ite-bool-then", "ite-bool-else", "plus-minus",
         "times-ite", "ite-int-then", "ite-int-else", "bvadd", "bvxor-neg", "bvmul-lshr", "bv-ite-then", "bv-ite-both", "bv-ite-direct", "bv-ite-tower", "int-ite-tower",
         "bvextract-concat", "store-select", "times-div", "select-const-store", "uf-apply", "str-concat-replace",
-        "toreal-consts", "bv-rot-ext-comp", "and-direct", "or-direct", "div-by-zero", "str-ops-only", "bv-ite-observed"]
+        "toreal-consts", "bv-rot-ext-comp", "and-direct", "or-direct", "div-by-zero", "str-ops-only", "bv-ite-observed", "int-div", "with-rejected-constructions"]
 
 
 def main():
@@ -385,6 +455,7 @@ def main():
         "between two levels; TimesDistributor and the tree printers are not measured (exponential output by design)",
         "size is measured only for TREE_NODES / LEAVES / DEPTH (the other measures return per-node sets)"])
     thorough = chk.tier == "thorough"
+    FAMS.extend(sorted(k for k in families(Environment()) if k.startswith("direct:") and k not in FAMS))
     n = 60 if thorough else 30
     depth = 40000 if thorough else 20000
     items = []
